@@ -55,10 +55,14 @@ func (sk *storeKey) clone(newId uint64) *storeKey {
 					prev:    newSl.tail,
 					element: element,
 				}
+				if newSl.tail != nil {
+					newSl.tail.next = item
+				}
 				newSl.tail = item
 				if newSl.head == nil {
 					newSl.head = item
 				}
+				newSl.count++
 			}
 			payload = &newSl
 		} else if flagHasOne(sk.flags, FLAG_KEY_TYPE_HASH_TABLE) {
